@@ -177,13 +177,20 @@ def main(argv=None):
         ("C17-empty-trailing-comment-swallows-next-line", "states(x=1)\nparameters(p=2)\na = p*x\ndx_dt = a\n",
          "states(x=1)\nparameters(p=2)\na = p*x #\ndx_dt = a\n"),
     ]
+    # inert placements in a text that mixes headed and header-less expression blocks (a declaration block in between)
+    mixed = 'states("A", x=1)\nparameters("A", p=2)\nexpressions("A")\na = p*x\ndx_dt = a\nstates(y=2)\ndy_dt = -y + x\nparameters(q=3)\nb = q*y\n'
+    directed += [(None, mixed, mixed.replace('states(y=2)\n', 'states(y=2)\n# about the rest\n')),
+                 (None, mixed, mixed.replace('states(y=2)\n', 'states(y=2) # note\n')),
+                 (None, mixed, mixed.replace('states(y=2)\n', '# before the second part\nstates(y=2)\n')),
+                 (None, mixed, mixed.replace('parameters(q=3)\n', 'parameters(q=3)\n# the last one\n')),
+                 (None, mixed, '# header\n' + mixed.replace('parameters("A", p=2)\n', 'parameters("A", p=2)\n# between declarations\n'))]
     for key, base, deco in directed:
         try:
             cb, cd = load_with_timeout(drv, base), load_with_timeout(drv, deco)
         except LoadTimeout:
             rep.violation("loading hangs", {"kind": "direct", "text": deco})
             continue
-        rep.case(key=key, nontrivial=True)
+        rep.case(key=key or deco, nontrivial=True)
         bad = cd.err is not None or view(cb) != view(cd)
         if bad:
             rep.violation(f"a comment changes the model: {cd.err or 'component membership / layout differ'}",
